@@ -137,6 +137,9 @@ ITEMS = location_types() + budget_types() + error_types() + [
     spec fn rest(&self) -> Seq<Ev<'a>> {
         if self.idx <= self.buf@.len() { self.buf@.skip(self.idx as int) } else { Seq::empty() }
     }
+    // a buffer has its current event at hand at all times
+    spec fn primed(&self) -> bool { true }
+    spec fn use_site_override(&self) -> Option<Location> { self.ref_override }
 ''',
          impl_methods={
              'next': dict(rewrites=[(r'mem::replace\(&mut self\.buf\[self\.idx\], Ev::Taken \{ location \}\)',
@@ -500,7 +503,9 @@ ITEMS = location_types() + budget_types() + error_types() + [
                   ('C05:a_live_value_is_read_at_the_untouched_cursor_with_the_next_node_as_definition_site', '''old(self).have_key && old(self).pending_value is None && r is Ok && old(self).ev.rest().len() > 0 ==>
                         exists|rl: Location| r == #[trigger] value_seed_result(seed, old(self).ev.rest(), old(self).cfg, rl, old(self).ev.rest()[0].spec_location())'''),
                   ('config_and_keys_untouched', 'final(self).cfg == old(self).cfg && final(self).seen == old(self).seen && final(self).pending == old(self).pending && final(self).merge_stack == old(self).merge_stack')],
-         proofs=[dict(before='let mut replay = ReplayEvents::with_reference(events, reference_location);', ghost=True, text='let ghost ev0 = events@;'),
+         proofs=[dict(before='value_seed_on_live(seed, self.ev, self.cfg, reference_location, defined_location)', label='C16:a_value_error_site_is_the_value_node_or_the_alias_token_that_stands_for_it',
+                      text='assert(self.ev.rest().len() > 0 ==> reference_location == spec_use_site(self.ev.use_site_override(), self.ev.rest()[0]) && defined_location == self.ev.rest()[0].spec_location());'),
+                 dict(before='let mut replay = ReplayEvents::with_reference(events, reference_location);', ghost=True, text='let ghost ev0 = events@;'),
                  dict(after='let mut replay = ReplayEvents::with_reference(events, reference_location);', text='assert(replay.rest() =~= ev0); assert(ev0.skip(0) =~= ev0);')],
          canaries=['C05:a_value_is_only_handed_out_after_its_key', 'C05:each_key_is_paired_with_exactly_one_value']),
     dict(src=D, path='impl de::Deserializer for YamlDeserializer/fn deserialize_map', id='YamlDeserializer::deserialize_map#prologue',
@@ -528,7 +533,9 @@ ITEMS = location_types() + budget_types() + error_types() + [
                     'let defined_location = (match this.ev.peek()? { Some(ev) => ev.location(), None => this.ev.last_location() });', 1, 'R18'),
                    (r'let value = seed\s*\.deserialize\(YamlDeserializer::new\(this\.ev, this\.cfg\)\)\s*\.map_err\(\|e\| \{\s*attach_alias_locations_if_missing\(e, reference_location, defined_location\)\s*\}\)\?;',
                     'let value = variant_payload_newtype(seed, this.ev, this.cfg, reference_location, defined_location)?;', 1, 'R8+R18')],
-         proofs=[dict(after_re=r'let (value|result) = variant_payload_\w+\([^;]*\)\?;', ghost=True, text='let ghost rest_p = this.ev.rest();'),
+         proofs=[dict(before_re=r'let value = variant_payload_newtype\(', label='C16:a_payload_error_site_is_the_payload_node_or_the_alias_token_that_stands_for_it', props=['C16', 'C05'],
+                      text='assert(this.ev.rest().len() > 0 ==> reference_location == spec_use_site(this.ev.use_site_override(), this.ev.rest()[0]) && defined_location == this.ev.rest()[0].spec_location());'),
+                 dict(after_re=r'let (value|result) = variant_payload_\w+\([^;]*\)\?;', ghost=True, text='let ghost rest_p = this.ev.rest();'),
                  dict(before_re=r'Ok\((value|result)\)\s*\}', label='C05:an_externally_tagged_payload_is_followed_by_exactly_the_mapping_end',
                       text='assert(if this.map_mode { rest_p.len() > 0 && rest_p[0] is MapEnd && this.ev.rest() == rest_p.skip(1) } else { this.ev.rest() == rest_p });')]),
     dict(src=D, path=EN + 'impl de::VariantAccess for VA/fn tuple_variant', id='VA::tuple_variant', impl_header="impl<'de, 'e> VA<'de, 'e>",
